@@ -190,7 +190,7 @@ def argv_case(info):
                         "stdout": out[:300]}
         return None
     # model side: the correspondence for argv cases is the validator of the first numeric-looking token
-    tok = next((a for a in argv if a and (a[0].isdigit() or a[0] in "+-") and not a.startswith("--")), "0")
+    tok = next((a for a in argv if a and a.isascii() and (a[0].isdigit() or a[0] in "+-") and not a.startswith("--")), "0")
     name = "nonnegative_int"
 
     def impl():
@@ -220,9 +220,10 @@ GRAPH_BAD = [["gnd", "4", "4"], ["gnd", "5", "3"], ["gnm", "3", "9"], ["complete
 def gen_argv(rng, helpers_spec, tier):
     """argv lists from the shape of each sub-command: numeric arguments at and around their bounds"""
     out = []
-    nums = ["0", "1", "2", "3", "4", "5", "-1", "x", "1.5", "", "7"]
+    nums = ["0", "1", "2", "3", "4", "5", "-1", "x", "1.5", "", "7", "inf", "-inf", "nan", "1e999", "1e1", "Infinity",
+            "0x3", "3.0", "٣"]
     shapes = {
-        "php": [[n1, n2] for n1 in ("0", "1", "3", "-1", "x") for n2 in ("0", "2", "4")] + [["3"], [], ["3", "2", "1"],
+        "php": [[n1, n2] for n1 in ("0", "1", "3", "-1", "x", "inf", "1e999", "3.5", "nan", "1e1") for n2 in ("0", "2", "4", "inf")] + [["inf"], ["-inf"], ["1E400"], ["3", "2", "inf"], ["3"], [], ["3", "2", "1"],
                 ["3", "2", "3"], ["3", "2", "1", "0"], ["3", "4", "2"], ["5", "4", "0"]],
         "bphp": 2, "rphp": 3, "cliquecoloring": 3, "count": 2, "parity": 1, "cpls": 3, "ram": 3, "ptn": 1,
         "vdw": [["5", "2", "2"], ["5", "1", "2"], ["0", "1", "1"], ["5", "2"], ["5"], ["5", "0", "2"], ["4", "2", "2", "2"],
